@@ -175,6 +175,7 @@ PredClient(status, ct, enc, frames, end, ends) ==
      extraheads |-> 0, problems |-> <<>>, frames |-> frames, rest |-> 0, end |-> end, ends |-> ends, enddup |-> "",
      after |-> 0, hdrs |-> <<>>, lost |-> <<>>, allow |-> <<>>, flushed |-> <<>>, raw |-> FALSE]
 
+NoRef == [has |-> FALSE]
 PredRet(n) == [panic |-> FALSE, panicv |-> "", ctxdone |-> TRUE, late |-> 0, n |-> n, stuck |-> FALSE]
 
 CtFor(scn, isErr) ==
@@ -203,7 +204,7 @@ BareHttpCode(scn, srv) == CodeOfHttp(scn.hd.status)
 
 ClientSideFault(scn) == scn.cl.cut # "" \/ FrameFaulty(scn.cl.frames) \/ scn.cl.clen \in {"over", "under"}
 
-Predict(scn) ==
+PredictCore(scn) ==
     LET rej == scn.cl.rej IN
     IF rej \in PreValidationRejects THEN
         \* operation.reportError before isValid: plain HTTP error, no dispatch
@@ -256,6 +257,10 @@ Predict(scn) ==
         enc == IF code # 0 /\ EndInHeaders(scn.cl.form) THEN "" ELSE scn.hd.comp
     IN [disp |-> <<d>>, ret |-> PredRet(1),
         cl |-> [PredClient(status, CtFor(scn, code # 0), enc, SeqOf(shown, ObsFrame), end, 1) EXCEPT !.raw = pass]]
+
+\* (the model's outcome does not depend on chunking at all: it has no notion of it at this grain;
+\*  the byte-grain model Framing.tla establishes that independence)
+Predict(scn) == LET p == PredictCore(scn) IN [disp |-> p.disp, ret |-> p.ret, cl |-> p.cl, ref |-> NoRef]
 
 (***************************************************************************)
 (* Conformance of a recorded observation with the model's prediction.      *)
